@@ -131,6 +131,9 @@ def run(tier):
                     continue
                 verdict = "Free"
             name = "p_%s_%s_%s_%s_%d" % (c["kind"].lower(), c["pm"].lower(), c["lm"].lower(), c["op"], ri)
+            if verdict == "Free":
+                # not judged by the compiler; if it compiles it is run, and a refused transition is then an Err, not a fault
+                stmt = stmt.replace(".unwrap();", ";")
             cells[name] = dict(c, route=rname, verdict=verdict)
             open(os.path.join(wd, "src", "bin", name + ".rs"), "w").write(prog(c["kind"], c["pm"], c["lm"], stmt))
     for c in table["stream"]:
@@ -192,7 +195,10 @@ def run(tier):
         else:
             free[name] = "compiles" if compiled else "rejected"
     # permitted programs run without faulting (states reachable at run time only)
-    runnable = [n for n, c in cells.items() if c["verdict"] == "MustCompile" and n in built and not (c.get("pm") == "NA" and c.get("lm") == "Locked")]
+    # Free cells that happen to compile are run too: whatever the compiler lets through must not fault (a signal)
+    runnable = [n for n, c in cells.items() if c["verdict"] in ("MustCompile", "Free") and n in built and n not in errs and "pm" in c
+                and not (c.get("pm") == "NA" and c.get("lm") == "Locked")]
+    runnable += [n for n, c in cells.items() if "pm" not in c and c["verdict"] == "MustCompile" and n in built]
     rc, out = sh(["cargo", "+nightly", "build", "--offline", "--target-dir", tgt] + sum([["--bin", n] for n in runnable], []), cwd=wd, timeout=3000)
     if rc != 0:
         raise ToolError("building the control programs failed:\n%s" % out[-3000:])
@@ -200,7 +206,11 @@ def run(tier):
     for n in runnable:
         rc, out = sh([os.path.join(tgt, "debug", n)], timeout=60)
         ran += 1
-        if rc != 0:
+        if cells[n]["verdict"] == "Free":
+            if rc < 0 or rc >= 128:
+                ck.fail("a program the compiler accepts faults at run time: %s" % n, {"cell": cells[n], "exit": rc, "output": out[-500:],
+                        "program": open(os.path.join(wd, "src", "bin", n + ".rs")).read()})
+        elif rc != 0:
             ck.fail("permitted program faults at run time: %s" % n, {"cell": cells[n], "exit": rc, "output": out[-500:]})
     ck.cov["evaluations"] = nprog + ran
     ck.cov["programs"] = nprog
@@ -215,7 +225,7 @@ def run(tier):
     ck.cov["samples"] = samples
     ck.cov["exhaustive"] = True
     ck.cov["rule"] = ("one program per (cell, route) of the table printed by TypeState.tla (12 operations x 2 containers x 3 protect modes x 2 lock modes + 4 stream cells; every trait or method through which the access could be requested is a route: as_mut_slice, index assignment, DerefMut/AsMut/BorrowMut/MutBytes/MutByteArray bounds, push_to_vec/pull_to_vec, ...); "
-                      "MustNotCompile cells must be rejected by rustc with the error in the generated line, MustCompile cells must compile and (where the state is reachable at run time) run without faulting; Free cells are recorded only")
+                      "MustNotCompile cells must be rejected by rustc with the error in the generated line, MustCompile cells must compile and (where the state is reachable at run time) run without faulting; Free cells are not judged by the compiler, but those that compile are run and must not die by a signal")
     ck.assumptions += ["rustc (nightly toolchain installed in the sandbox) is the oracle for 'is rejected by the compiler'",
                        "the (NoAccess, Locked) type exists but cannot be reached at run time on Linux: compile-only"]
     return ck.finish()
